@@ -630,7 +630,9 @@ func CheckC13(w *World, s *Snapshot, quiescentNoViews bool) []V {
 	// the importer keeps one file of reassembly snapshots: the one its next import resumes from.  A job body runs
 	// between two states, so in every state at most one file is there (the directory is a plain file while the
 	// fault snapdir-gone lasts)
-	if ents, err := os.ReadDir(w.SnapDir); err == nil {
+	// (not judged after a restart inside this process: an import of the closed manager that was in flight saves its
+	// snapshots after the new importer has chosen the file it resumes from - a process that really ends cannot do that)
+	if ents, err := os.ReadDir(w.SnapDir); err == nil && !w.Restarted {
 		var names []string
 		for _, e := range ents {
 			names = append(names, e.Name())
